@@ -31,4 +31,18 @@ PROPS = {
              "fault with at least 2 acknowledged publishes; distinct = distinct (program hash, schedule hash).",
              probes=["fault.crash", "fault.store_err", "fault.disconnect", "c01.crash_in_store_call"],
              assumptions=COMMON_ASSUME),
+    "C02": A("TestSim_C02",
+             "one evaluation = one simulated run of the 'pubfan' workload: population (2-4 users x 1-2 sessions, groups/channels with channel readers, p2p, optional root), "
+             "0-6 permission-shaping steps (owner changes a member's grant / bans, member changes own request, unsubscribes, detaches), then 1-3 phases of 3-12 actions "
+             "(publish, no-echo, custom/forged heads, on behalf of, to me/fnd/sys, by the other spelling of the name, subscribe/leave/unsubscribe/mode change/disconnect); "
+             "3 of 4 publishes are isolated probes judged exactly against the white-box snapshot taken when they fire (recipient set, per-copy fields, push receipt), "
+             "the rest overlap with the churn. Non-trivial = at least one accepted isolated publish with at least 3 recipient classes present among "
+             "{publishing session, other reader session, channel reader, ineligible/detached client}; distinct = distinct (program hash, schedule hash).",
+             probes=["fault.disconnect"], assumptions=COMMON_ASSUME),
+    "C03": A("TestSim_C03",
+             "same 'pubfan' workload as C02. Every isolated publish is classified from the snapshot at fire time (no session / no hi / not logged in / on-behalf-of by non-root / "
+             "not attached / not subscribed / W missing in want, in given, in both / read-only / inactive / channel name of a non-channel / eligible) and must be answered 202 iff eligible; "
+             "a rejected one must get an error code and leave the whole simulated disk byte-identical, cause no frame at any other client, no push and no id consumption. "
+             "Non-trivial = at least one accepted and at least two differently-rejected isolated publishes in the run; distinct = distinct (program hash, schedule hash).",
+             probes=["fault.disconnect"], assumptions=COMMON_ASSUME),
 }
